@@ -67,6 +67,9 @@ type Case struct {
 	// BadChunk (chunked): the chunk framing breaks after the first chunk - 1: size line "1g0", 2: missing CRLF after the
 	// chunk data ("abc0"). The handler that reads gets an error; the connection must not go on serving what follows.
 	BadChunk int `json:"bad_chunk,omitempty"`
+	// ChunkExt (chunked): spelling of every chunk-size line (the last one too) - 1: "5;ext=1", 2: "5 ;ext=1" (a blank in front of
+	// the extension), 3: "5; ext", 4: "5 " (trailing blank), 5: "005". All legal; the body and what follows are the same.
+	ChunkExt int `json:"chunk_ext,omitempty"`
 	// Method: the method of the upload request ("" = POST); a GET or HEAD with a body is framed like any other request
 	Method string `json:"method,omitempty"`
 }
@@ -137,8 +140,23 @@ func build(cs Case) (stream []byte, body []byte, firstLen int) {
 		}
 		w.WriteString("Transfer-Encoding: chunked\r\n\r\n")
 		off := 0
+		sizeLine := func(n int) string {
+			switch cs.ChunkExt {
+			case 1:
+				return fmt.Sprintf("%x;ext=1\r\n", n)
+			case 2:
+				return fmt.Sprintf("%x ;ext=1\r\n", n)
+			case 3:
+				return fmt.Sprintf("%x; ext\r\n", n)
+			case 4:
+				return fmt.Sprintf("%x \r\n", n)
+			case 5:
+				return fmt.Sprintf("00%x\r\n", n)
+			}
+			return fmt.Sprintf("%x\r\n", n)
+		}
 		for _, n := range cs.Chunks {
-			fmt.Fprintf(&w, "%x\r\n", n)
+			w.WriteString(sizeLine(n))
 			w.Write(body[off : off+n])
 			w.WriteString("\r\n")
 			off += n
@@ -151,7 +169,7 @@ func build(cs Case) (stream []byte, body []byte, firstLen int) {
 			b := w.Bytes()
 			w.Truncate(len(b) - 2)
 		}
-		w.WriteString("0\r\n")
+		w.WriteString(sizeLine(0))
 		if cs.Trailer {
 			if cs.LFEnd == 2 {
 				w.WriteString("X-Tr: tv\n")
@@ -344,6 +362,9 @@ func (w *worker) exec(c *mc.Ctx, cs Case) {
 		}
 		if cs.BadChunk != 0 {
 			enc = fmt.Sprintf("chunked-badchunk%d", cs.BadChunk)
+		}
+		if cs.ChunkExt != 0 {
+			enc = fmt.Sprintf("chunked-sizeline%d", cs.ChunkExt)
 		}
 		if cs.AfterFailedRelease {
 			enc += "|after-failed-release"
@@ -651,6 +672,9 @@ func cases(thorough bool) []Case {
 					for _, seg := range []string{"whole", "later", "bytewise"} {
 						for lf := 1; lf <= 3; lf++ {
 							out = append(out, Case{Len: n, Chunked: true, Chunks: ch, Trailer: lf != 1, LFEnd: lf, ReadSize: rs, Stop: stop, Seg: seg})
+						}
+						for ce := 1; ce <= 5; ce++ {
+							out = append(out, Case{Len: n, Chunked: true, Chunks: ch, Trailer: ce%2 == 0, ChunkExt: ce, ReadSize: rs, Stop: stop, Seg: seg})
 						}
 						if n > 0 {
 							for bc := 1; bc <= 2; bc++ {
